@@ -196,6 +196,9 @@ func (in *Interp) lockName(st *State, key string) string {
 	var obj int
 	fmt.Sscanf(key, "%d", &obj)
 	if obj >= 0 && obj < len(st.heap) {
+		if n, ok := st.shared[obj]; ok {
+			return n + key[strings.Index(key, " "):]
+		}
 		return st.heap[obj].Tag + key[strings.Index(key, " "):]
 	}
 	return key
@@ -444,12 +447,92 @@ func vndIntrinsic(in *Interp, st *State, fn *ssa.Function, args []Value, retTo s
 		return tf.LOr(tf.LNot(in.termOf(args[0], "Implies")), in.termOf(args[1], "Implies")), true
 	case "Ite64", "Ite8", "IteInt":
 		return tf.Ite(in.termOf(args[0], "Ite"), in.termOf(args[1], "Ite"), in.termOf(args[2], "Ite")), true
+	case "SharesMemory":
+		// does anything reachable from root refer to the backing array of buf?
+		target := -2
+		if b, ok := args[1].(Slice); ok {
+			target = b.Obj
+		}
+		found := false
+		seen := map[int]bool{}
+		var walk func(v Value, depth int)
+		walk = func(v Value, depth int) {
+			if found || depth > 12 {
+				return
+			}
+			switch x := v.(type) {
+			case Ptr:
+				if x.IsNil() {
+					return
+				}
+				if x.Obj == target {
+					found = true
+					return
+				}
+				if !seen[x.Obj] {
+					seen[x.Obj] = true
+					walk(st.heap[x.Obj].Cell, depth+1)
+				}
+			case Slice:
+				if x.Obj < 0 {
+					return
+				}
+				if x.Obj == target {
+					found = true
+					return
+				}
+				if !seen[x.Obj] {
+					seen[x.Obj] = true
+					walk(st.heap[x.Obj].Cell, depth+1)
+				}
+			case MapRef:
+				if x.Nil || seen[x.Obj] {
+					return
+				}
+				seen[x.Obj] = true
+				md := st.heap[x.Obj].Cell.(MapData)
+				for _, e := range md.Keys {
+					walk(e, depth+1)
+				}
+				for _, e := range md.Vals {
+					walk(e, depth+1)
+				}
+			case Struct:
+				for _, f := range x.F {
+					walk(f, depth+1)
+				}
+			case Array:
+				if len(x.E) > 0 {
+					if _, isT := x.E[0].(*Term); isT {
+						return
+					}
+				}
+				for _, e := range x.E {
+					walk(e, depth+1)
+				}
+			case Iface:
+				if x.T != nil {
+					walk(x.V, depth+1)
+				}
+			case Tuple:
+				for _, e := range x.E {
+					walk(e, depth+1)
+				}
+			}
+		}
+		if i, ok := args[0].(Iface); ok && i.T != nil {
+			walk(i.V, 0)
+		}
+		return tf.Bool(found), true
 	case "ClockJump":
 		st.lastMono = nil
 		st.clockJump = true
 		return nil, true
 	case "RefTZ64":
 		return in.refTZ64(in.termOf(args[0], "RefTZ64")), true
+	case "Unshare":
+		st.shared = map[int]string{}
+		return nil, true
 	case "U128From":
 		s := args[0].(Slice)
 		if s.Len < 16 {
@@ -706,6 +789,16 @@ func atomicAdd(in *Interp, st *State, fn *ssa.Function, args []Value, retTo ssa.
 // between reads (assumption T1 of DESIGN.md).
 func timeNow(in *Interp, st *State, fn *ssa.Function, args []Value, retTo ssa.Value, pos token.Pos) (Value, bool) {
 	tf := in.tf
+	if in.opts["concrete-clock"] {
+		// a fixed clock advancing one millisecond per read (harnesses whose subject is not time:
+		// wire durations go through a division by 1e9 that no solver decides on symbolic values)
+		st.clockReads++
+		sec := tf.ConstU(33, 4450000000) // early 2026, seconds since year 1885
+		nsec := tf.ConstU(30, uint64(st.clockReads)*1000000)
+		mono := tf.ConstU(64, 1<<41+uint64(st.clockReads)*1000000)
+		wall := tf.Concat(tf.ConstU(1, 1), tf.Concat(sec, nsec))
+		return Struct{F: []Value{wall, mono, nilPtr}}, true
+	}
 	sec := in.fresh("now_sec", 33)
 	nsec := in.fresh("now_nsec", 30)
 	mono := in.nextMono(st)
@@ -724,6 +817,10 @@ func timeNow(in *Interp, st *State, fn *ssa.Function, args []Value, retTo ssa.Va
 }
 
 func timeMono(in *Interp, st *State, fn *ssa.Function, args []Value, retTo ssa.Value, pos token.Pos) (Value, bool) {
+	if in.opts["concrete-clock"] {
+		st.clockReads++
+		return in.tf.ConstU(64, 1<<41+uint64(st.clockReads)*1000000), true
+	}
 	return in.nextMono(st), true
 }
 
